@@ -2,12 +2,28 @@ package engine
 
 import "fmt"
 
-var famNames = []string{"F-type", "F-name", "F-sub", "F-full", "F-iface"}
-var formNames = map[int64]string{0: "built", 1: "struct", 2: "*struct", 3: "positional where possible", 9: "symbolic form per function"}
+var famNames = []string{"F-type", "F-name", "F-sub", "F-full", "F-iface", "F-chain", "F-tsub", "F-nsub"}
+var formNames = map[int64]string{0: "positional where the labels allow it, else struct", 1: "struct", 2: "*struct", 3: "built (BuildFunc)", 9: "symbolic form per function"}
 
 // world describes one resolver template shard.
-func world(entry string, fam, nT, nV, conv, form, sv int64) Shard {
-	return sh(entry, fmt.Sprintf("%s: %d target params, %d supplied values, converters(in,out digits)=%d, forms=%s, schedule vector %d", famNames[fam], nT, nV, conv, formNames[form], sv), 0, fam, nT, nV, conv, form, sv)
+func world(entry string, fam, nT, nV, conv, form, sv int64, mode ...int64) Shard {
+	m := int64(0)
+	if len(mode) > 0 {
+		m = mode[0]
+	}
+	extra := ""
+	if m&2 != 0 {
+		extra += ", converters symbolically run-once"
+	}
+	if m&4 != 0 {
+		extra += ", type-only entries of a list may share a type with different subtypes"
+	}
+	if fam >= 100 {
+		skel := []string{"skeleton 0: multi-input converter entered through one input, typed inputs with symbolic subtypes", "skeleton 1: diamond of two multi-input converters", "skeleton 2: two-output converter feeding two parameters, symbolic names/subtypes",
+			"skeleton 3: provider competing with direct values, symbolic names/subtypes", "skeleton 4: chain of three with a bidirectional pair", "skeleton 5: two named parameters converted from competing named inputs with subtypes", "skeleton 6: deep diamond (5 converters, named+subtyped intermediate, interface target)"}
+		return sh(entry, fmt.Sprintf("%s, forms=%s, order policy %d%s", skel[fam-100], formNames[form], sv, extra), 0, fam, nT, nV, conv, form, sv, m)
+	}
+	return sh(entry, fmt.Sprintf("%s: %d target params, %d supplied values, converters(in,out digits; 9=provider)=%d, forms=%s, order policy %d%s", famNames[fam], nT, nV, conv, formNames[form], sv, extra), 0, fam, nT, nV, conv, form, sv, m)
 }
 
 func registerResolver() {
@@ -22,13 +38,10 @@ func registerResolver() {
 	register(&PropSpec{
 		ID: "C01", Pkg: "argmapper",
 		Quick: []Shard{
-			world("HarnessC01", 1, 1, 2, 0, 0, 0), world("HarnessC01", 2, 1, 2, 0, 1, 0), world("HarnessC01", 3, 1, 1, 0, 9, 0),
-			world("HarnessC01", 0, 1, 1, 11, 9, 0), world("HarnessC01", 1, 1, 1, 11, 1, 0), world("HarnessC01", 2, 1, 1, 11, 0, 1),
+			world("HarnessC01", 1, 1, 2, 0, 0, 0), world("HarnessC01", 2, 1, 2, 0, 1, 0), world("HarnessC01", 3, 1, 1, 0, 9, 0), world("HarnessC01", 0, 1, 1, 11, 9, 0), world("HarnessC01", 1, 1, 1, 11, 1, 0), world("HarnessC01", 2, 1, 1, 11, 3, 1), world("HarnessC01", 6, 1, 1, 12, 1, 0, 4), world("HarnessC01", 5, 1, 1, 2111, 0, 0), world("HarnessC01", 100, 0, 0, 0, 1, 0), world("HarnessC01", 101, 0, 0, 0, 9, 0, 2), world("HarnessC01", 102, 0, 0, 0, 1, 0), world("HarnessC01", 103, 0, 0, 0, 1, 0), world("HarnessC01", 104, 0, 0, 0, 0, 0), world("HarnessC01", 106, 0, 0, 0, 1, 0),
 		},
 		Thorough: []Shard{
-			world("HarnessC01", 1, 1, 2, 0, 0, 0), world("HarnessC01", 2, 1, 2, 0, 1, 0), world("HarnessC01", 3, 1, 2, 0, 9, 0),
-			world("HarnessC01", 0, 1, 1, 11, 9, 0), world("HarnessC01", 1, 1, 1, 11, 1, 0), world("HarnessC01", 2, 1, 1, 11, 0, 1), world("HarnessC01", 3, 1, 1, 11, 0, 0),
-			world("HarnessC01", 0, 1, 1, 1111, 1, 0), world("HarnessC01", 1, 2, 1, 11, 0, 0), world("HarnessC01", 0, 1, 2, 21, 1, 0),
+			world("HarnessC01", 1, 1, 2, 0, 0, 0), world("HarnessC01", 2, 1, 2, 0, 1, 0), world("HarnessC01", 3, 1, 1, 0, 9, 0), world("HarnessC01", 0, 1, 1, 11, 9, 0), world("HarnessC01", 1, 1, 1, 11, 1, 0), world("HarnessC01", 2, 1, 1, 11, 3, 1), world("HarnessC01", 6, 1, 1, 12, 1, 0, 4), world("HarnessC01", 5, 1, 1, 2111, 0, 0), world("HarnessC01", 100, 0, 0, 0, 1, 0), world("HarnessC01", 101, 0, 0, 0, 9, 0, 2), world("HarnessC01", 102, 0, 0, 0, 1, 0), world("HarnessC01", 103, 0, 0, 0, 1, 0), world("HarnessC01", 104, 0, 0, 0, 0, 0), world("HarnessC01", 106, 0, 0, 0, 1, 0), world("HarnessC01", 3, 1, 2, 0, 9, 0), world("HarnessC01", 3, 1, 1, 11, 3, 0), world("HarnessC01", 0, 1, 1, 1111, 1, 0), world("HarnessC01", 1, 2, 1, 11, 1, 0), world("HarnessC01", 0, 1, 2, 21, 1, 0), world("HarnessC01", 7, 1, 1, 11, 1, 0), world("HarnessC01", 6, 1, 2, 21, 1, 0, 4), world("HarnessC01", 5, 1, 2, 211111, 0, 0), world("HarnessC01", 5, 2, 1, 1111, 9, 0), world("HarnessC01", 100, 0, 0, 0, 9, 1), world("HarnessC01", 102, 0, 0, 0, 9, 0), world("HarnessC01", 103, 0, 0, 0, 9, 1), world("HarnessC01", 105, 0, 0, 0, 9, 0), world("HarnessC01", 1, 1, 1, 91, 1, 0), world("HarnessC01", 3, 1, 1, 91, 1, 0),
 		},
 		Covers: []string{"C01.call-returned", "C01.target-ran", "C01.converter-ran", "C01.parameter-checked"},
 		Bounds: []string{"label pools per family: F-type {P0,P1,P2,I}; F-name names {'',a,b} x {P0,P1}; F-sub subtypes {'',s,t}; F-full names x types x {'',s}; labels are symbolic pool indices (solver-forked), payloads symbolic",
@@ -41,13 +54,10 @@ func registerResolver() {
 	register(&PropSpec{
 		ID: "C02", Pkg: "argmapper",
 		Quick: []Shard{
-			world("HarnessC02", 1, 1, 2, 0, 0, 0), world("HarnessC02", 2, 1, 2, 0, 1, 0), world("HarnessC02", 3, 1, 1, 0, 9, 0),
-			world("HarnessC02", 0, 1, 1, 11, 9, 0), world("HarnessC02", 1, 1, 1, 11, 1, 0), world("HarnessC02", 2, 1, 1, 11, 0, 1),
+			world("HarnessC02", 1, 1, 2, 0, 0, 0), world("HarnessC02", 2, 1, 2, 0, 1, 0), world("HarnessC02", 3, 1, 1, 0, 9, 0), world("HarnessC02", 0, 1, 1, 11, 9, 0), world("HarnessC02", 1, 1, 1, 11, 1, 0), world("HarnessC02", 2, 1, 1, 11, 3, 1), world("HarnessC02", 5, 1, 1, 2121, 0, 0), world("HarnessC02", 100, 0, 0, 0, 1, 0), world("HarnessC02", 102, 0, 0, 0, 1, 0), world("HarnessC02", 103, 0, 0, 0, 1, 0),
 		},
 		Thorough: []Shard{
-			world("HarnessC02", 1, 1, 2, 0, 0, 0), world("HarnessC02", 2, 1, 2, 0, 1, 0), world("HarnessC02", 3, 1, 2, 0, 9, 0),
-			world("HarnessC02", 0, 1, 1, 11, 9, 0), world("HarnessC02", 1, 1, 1, 11, 1, 0), world("HarnessC02", 2, 1, 1, 11, 0, 1), world("HarnessC02", 3, 1, 1, 11, 0, 0),
-			world("HarnessC02", 0, 1, 1, 1111, 1, 0), world("HarnessC02", 0, 1, 1, 2121, 1, 0), world("HarnessC02", 0, 1, 2, 21, 1, 0),
+			world("HarnessC02", 1, 1, 2, 0, 0, 0), world("HarnessC02", 2, 1, 2, 0, 1, 0), world("HarnessC02", 3, 1, 1, 0, 9, 0), world("HarnessC02", 0, 1, 1, 11, 9, 0), world("HarnessC02", 1, 1, 1, 11, 1, 0), world("HarnessC02", 2, 1, 1, 11, 3, 1), world("HarnessC02", 5, 1, 1, 2121, 0, 0), world("HarnessC02", 100, 0, 0, 0, 1, 0), world("HarnessC02", 102, 0, 0, 0, 1, 0), world("HarnessC02", 103, 0, 0, 0, 1, 0), world("HarnessC02", 3, 1, 2, 0, 9, 0), world("HarnessC02", 3, 1, 1, 11, 3, 0), world("HarnessC02", 0, 1, 1, 1111, 1, 0), world("HarnessC02", 0, 1, 1, 2121, 1, 0), world("HarnessC02", 0, 1, 2, 21, 1, 0), world("HarnessC02", 5, 1, 1, 212111, 0, 0), world("HarnessC02", 6, 1, 1, 2111, 1, 0), world("HarnessC02", 1, 1, 1, 91, 1, 0),
 		},
 		Covers:   []string{"C02.underivable-world"},
 		Bounds:   []string{"as C01, restricted (by assumption) to worlds with a target parameter outside the least fixpoint of derivable values under the C01 matching table"},
@@ -60,9 +70,7 @@ func registerResolver() {
 	register(&PropSpec{
 		ID: "C06", Pkg: "argmapper",
 		Quick: []Shard{
-			world("HarnessC06", 1, 1, 2, 0, 0, 0), world("HarnessC06", 2, 2, 1, 0, 1, 0), world("HarnessC06", 3, 1, 1, 0, 9, 0),
-			world("HarnessC06", 0, 1, 1, 11, 9, 0), world("HarnessC06", 1, 1, 1, 11, 1, 0), world("HarnessC06", 2, 1, 1, 11, 0, 1),
-			world("HarnessC06", 0, 1, 1, 2121, 1, 0),
+			world("HarnessC06", 1, 1, 2, 0, 0, 0), world("HarnessC06", 2, 2, 1, 0, 1, 0), world("HarnessC06", 3, 1, 1, 0, 9, 0), world("HarnessC06", 0, 1, 1, 11, 9, 0), world("HarnessC06", 1, 1, 1, 11, 1, 0), world("HarnessC06", 2, 1, 1, 11, 3, 1), world("HarnessC06", 0, 1, 1, 2121, 1, 0), world("HarnessC06", 5, 1, 1, 2111, 0, 0, 2), world("HarnessC06", 6, 1, 1, 12, 1, 0, 4), world("HarnessC06", 100, 0, 0, 0, 1, 0), world("HarnessC06", 101, 0, 0, 0, 9, 0, 2), world("HarnessC06", 102, 0, 0, 0, 1, 0), world("HarnessC06", 103, 0, 0, 0, 1, 0), world("HarnessC06", 104, 0, 0, 0, 0, 0), world("HarnessC06", 106, 0, 0, 0, 1, 0), world("HarnessC06", 1, 1, 1, 91, 1, 0),
 			sh("HarnessC06Pos", "positional target func(T,T)", 0, 0), sh("HarnessC06Pos", "positional target func(T,T,U)", 0, 1),
 			sh("HarnessC06Pos", "positional converter func(T,T) U", 0, 2), sh("HarnessC06Pos", "positional func(T,T) (T,T)", 0, 3),
 			sh("HarnessC06Malformed", "nil option", 0, 0), sh("HarnessC06Malformed", "nil values", 0, 1), sh("HarnessC06Malformed", "Converter(42)", 0, 2),
@@ -82,12 +90,10 @@ func registerResolver() {
 	register(&PropSpec{
 		ID: "C03", Pkg: "argmapper", SchedDependent: true,
 		Quick: []Shard{
-			world("HarnessC03", 1, 1, 1, 0, 1, 100), world("HarnessC03", 3, 1, 1, 11, 1, 100), world("HarnessC03", 1, 2, 0, 11, 0, 0),
-			world("HarnessC03", 2, 1, 1, 11, 1, 100), world("HarnessC03", 0, 1, 0, 11, 9, 0),
+			world("HarnessC03", 1, 1, 1, 0, 1, 100), world("HarnessC03", 3, 1, 1, 11, 1, 100), world("HarnessC03", 1, 2, 0, 11, 0, 0), world("HarnessC03", 2, 1, 1, 11, 1, 100), world("HarnessC03", 0, 1, 0, 11, 9, 0), world("HarnessC03", 3, 1, 0, 91, 1, 100), world("HarnessC03", 1, 1, 1, 91, 1, 101), world("HarnessC03", 103, 0, 0, 0, 1, 100),
 		},
 		Thorough: []Shard{
-			world("HarnessC03", 1, 1, 2, 0, 1, 100), world("HarnessC03", 3, 1, 1, 11, 1, 100), world("HarnessC03", 3, 1, 1, 11, 0, 101), world("HarnessC03", 1, 2, 0, 11, 0, 101),
-			world("HarnessC03", 2, 1, 1, 11, 1, 100), world("HarnessC03", 0, 1, 1, 11, 9, 0), world("HarnessC03", 3, 1, 0, 1111, 1, 0), world("HarnessC03", 3, 2, 1, 11, 1, 1),
+			world("HarnessC03", 1, 1, 1, 0, 1, 100), world("HarnessC03", 3, 1, 1, 11, 1, 100), world("HarnessC03", 1, 2, 0, 11, 0, 0), world("HarnessC03", 2, 1, 1, 11, 1, 100), world("HarnessC03", 0, 1, 0, 11, 9, 0), world("HarnessC03", 3, 1, 0, 91, 1, 100), world("HarnessC03", 1, 1, 1, 91, 1, 101), world("HarnessC03", 103, 0, 0, 0, 1, 100), world("HarnessC03", 1, 1, 2, 0, 1, 100), world("HarnessC03", 3, 1, 1, 11, 3, 101), world("HarnessC03", 1, 2, 0, 11, 0, 101), world("HarnessC03", 0, 1, 1, 11, 9, 0), world("HarnessC03", 3, 1, 0, 1111, 1, 0), world("HarnessC03", 3, 2, 1, 11, 1, 1), world("HarnessC03", 3, 1, 1, 91, 1, 101), world("HarnessC03", 2, 1, 1, 91, 1, 102), world("HarnessC03", 7, 1, 1, 1191, 1, 0), world("HarnessC03", 102, 0, 0, 0, 1, 100),
 		},
 		Covers:   []string{"C03.call-returned", "C03.with-distractor-converter"},
 		Bounds:   []string{"targets of 1-2 parameters, each with an exactly matching supplied value (assumed), plus <=2 distractor values and <=2 distractor converters with symbolic labels", "iteration order: exhaustive product of independent flips at the six order-sensitive range sites of path selection (sv=100), or perm(3)/flip (sv=101)"},
@@ -99,11 +105,10 @@ func registerResolver() {
 	register(&PropSpec{
 		ID: "C04", Pkg: "argmapper",
 		Quick: []Shard{
-			world("HarnessC04", 0, 1, 1, 11, 9, 0), world("HarnessC04", 1, 1, 1, 1111, 1, 0), world("HarnessC04", 0, 1, 1, 1121, 0, 0), world("HarnessC04", 0, 2, 1, 1111, 1, 1),
+			world("HarnessC04", 0, 1, 1, 11, 9, 0), world("HarnessC04", 1, 1, 1, 1111, 1, 0), world("HarnessC04", 0, 1, 1, 1121, 0, 0), world("HarnessC04", 0, 1, 1, 12, 9, 0), world("HarnessC04", 1, 1, 1, 12, 1, 0), world("HarnessC04", 101, 0, 0, 0, 1, 0), world("HarnessC04", 106, 0, 0, 0, 1, 0), world("HarnessC04", 104, 0, 0, 0, 0, 0), world("HarnessC04", 0, 1, 1, 1211, 1, 0, 2),
 		},
 		Thorough: []Shard{
-			world("HarnessC04", 0, 1, 1, 11, 9, 0), world("HarnessC04", 1, 1, 1, 1111, 1, 0), world("HarnessC04", 0, 1, 1, 1121, 0, 0), world("HarnessC04", 0, 2, 1, 1111, 1, 1),
-			world("HarnessC04", 0, 1, 1, 111111, 1, 0), world("HarnessC04", 3, 1, 1, 1111, 0, 0), world("HarnessC04", 0, 1, 2, 2111, 2, 0),
+			world("HarnessC04", 0, 1, 1, 11, 9, 0), world("HarnessC04", 1, 1, 1, 1111, 1, 0), world("HarnessC04", 0, 1, 1, 1121, 0, 0), world("HarnessC04", 0, 1, 1, 12, 9, 0), world("HarnessC04", 1, 1, 1, 12, 1, 0), world("HarnessC04", 101, 0, 0, 0, 1, 0), world("HarnessC04", 106, 0, 0, 0, 1, 0), world("HarnessC04", 104, 0, 0, 0, 0, 0), world("HarnessC04", 0, 1, 1, 1211, 1, 0, 2), world("HarnessC04", 0, 2, 1, 1111, 1, 1), world("HarnessC04", 0, 1, 1, 111111, 1, 0), world("HarnessC04", 3, 1, 1, 1111, 0, 0), world("HarnessC04", 0, 1, 2, 2111, 2, 0), world("HarnessC04", 3, 1, 1, 12, 9, 0), world("HarnessC04", 5, 1, 1, 211111, 0, 0), world("HarnessC04", 100, 0, 0, 0, 9, 0), world("HarnessC04", 102, 0, 0, 0, 9, 0, 2), world("HarnessC04", 101, 0, 0, 0, 9, 0, 2),
 		},
 		Covers:   []string{"C04.call-returned", "C04.converter-failed", "C04.target-failed", "C04.success"},
 		Bounds:   []string{"chains of up to 2 (quick) / 3 (thorough) converters with symbolic labels, each declaring a final error and failing symbolically; the target fails symbolically too", "error identity is Go pointer identity of distinct error objects"},
@@ -115,11 +120,10 @@ func registerResolver() {
 	register(&PropSpec{
 		ID: "C05", Pkg: "argmapper", SchedDependent: true,
 		Quick: []Shard{
-			world("HarnessC05", 0, 1, 1, 11, 1, 102), world("HarnessC05", 0, 1, 1, 1111, 1, 0), world("HarnessC05", 1, 1, 1, 1111, 1, 1), world("HarnessC05", 0, 1, 1, 1121, 1, 0),
+			world("HarnessC05", 0, 1, 1, 11, 1, 102), world("HarnessC05", 0, 1, 1, 1111, 1, 0), world("HarnessC05", 1, 1, 1, 1111, 1, 1), world("HarnessC05", 0, 1, 1, 1121, 1, 0), world("HarnessC05", 101, 0, 0, 0, 9, 0, 2), world("HarnessC05", 104, 0, 0, 0, 0, 100, 2), world("HarnessC05", 106, 0, 0, 0, 1, 0, 2), world("HarnessC05", 5, 1, 1, 2111, 0, 0, 2), world("HarnessC05", 0, 1, 1, 91, 9, 0, 2),
 		},
 		Thorough: []Shard{
-			world("HarnessC05", 0, 1, 1, 11, 1, 102), world("HarnessC05", 0, 1, 1, 1111, 1, 100), world("HarnessC05", 1, 1, 1, 1111, 1, 1), world("HarnessC05", 0, 1, 1, 1121, 1, 0),
-			world("HarnessC05", 0, 1, 1, 111111, 1, 0), world("HarnessC05", 3, 1, 1, 1111, 0, 0), world("HarnessC05", 0, 2, 1, 1111, 1, 2), world("HarnessC05", 4, 1, 1, 1111, 1, 0),
+			world("HarnessC05", 0, 1, 1, 11, 1, 102), world("HarnessC05", 0, 1, 1, 1111, 1, 0), world("HarnessC05", 1, 1, 1, 1111, 1, 1), world("HarnessC05", 0, 1, 1, 1121, 1, 0), world("HarnessC05", 101, 0, 0, 0, 9, 0, 2), world("HarnessC05", 104, 0, 0, 0, 0, 100, 2), world("HarnessC05", 106, 0, 0, 0, 1, 0, 2), world("HarnessC05", 5, 1, 1, 2111, 0, 0, 2), world("HarnessC05", 0, 1, 1, 91, 9, 0, 2), world("HarnessC05", 0, 1, 1, 1111, 1, 100), world("HarnessC05", 0, 1, 1, 111111, 1, 0), world("HarnessC05", 3, 1, 1, 1111, 0, 0), world("HarnessC05", 0, 2, 1, 1111, 1, 2), world("HarnessC05", 4, 1, 1, 1111, 1, 0), world("HarnessC05", 5, 1, 2, 211111, 0, 0), world("HarnessC05", 5, 1, 1, 111111, 0, 0, 2), world("HarnessC05", 100, 0, 0, 0, 9, 0, 2), world("HarnessC05", 102, 0, 0, 0, 9, 0, 2), world("HarnessC05", 105, 0, 0, 0, 9, 100),
 		},
 		Covers:   []string{"C05.call-returned", "C05.derivable-world", "C05.converter-used", "C05.stability-checked"},
 		Bounds:   []string{"converter sets of up to 2 (quick) / 3 (thorough) converters with symbolic labels, including 2-cycles and bidirectional pairs (single-input) and acyclic 2-input converters", "stability: the same call repeated in one path under two independent iteration-order choices (per-site flips, or seeded vectors)"},
@@ -129,12 +133,12 @@ func registerResolver() {
 		CVQuick:  2, CVThor: 4,
 	})
 	c07 := func(kind, k, form, sv int64) Shard {
-		return sh("HarnessC07", fmt.Sprintf("kind=%d (0: competing same-typed named inputs, 1: named vs type-only converter), %d named inputs, converter form %s, order policy %d", kind, k, formNames[form], sv), 0, kind, k, form, sv)
+		return sh("HarnessC07", fmt.Sprintf("kind=%d (0: competing same-typed named inputs with symbolic subtypes, 1: named vs type-only converter; tens digit = number of named parameters), %d named inputs, converter form %s, order policy %d", kind, k, formNames[form], sv), 0, kind, k, form, sv)
 	}
 	register(&PropSpec{
 		ID: "C07", Pkg: "argmapper", SchedDependent: true,
-		Quick:    []Shard{c07(0, 2, 9, 100), c07(0, 3, 0, 101), c07(1, 1, 0, 100), c07(1, 2, 1, 101)},
-		Thorough: []Shard{c07(0, 2, 9, 100), c07(0, 3, 9, 101), c07(0, 4, 0, 101), c07(1, 1, 9, 100), c07(1, 2, 9, 101), c07(1, 3, 0, 101), c07(0, 3, 0, 102)},
+		Quick:    []Shard{c07(0, 2, 9, 100), c07(0, 3, 0, 100), c07(20, 2, 1, 100), c07(20, 3, 0, 0), c07(1, 1, 0, 100), c07(1, 2, 1, 101)},
+		Thorough: []Shard{c07(0, 2, 9, 100), c07(0, 3, 9, 101), c07(0, 4, 0, 100), c07(20, 3, 9, 100), c07(30, 3, 1, 100), c07(1, 1, 9, 100), c07(1, 2, 9, 101), c07(1, 3, 0, 101), c07(0, 3, 0, 102)},
 		Covers:   []string{"C07.conversion-checked"},
 		Bounds:   []string{"k<=3 (quick) / 4 (thorough) competing named inputs of the converter's input type, the parameter's name symbolic among them, both type assignments, all four converter forms, both registration orders", "iteration order: exhaustive flip product at the six order-sensitive sites / perm(3) at Dijkstra's relaxation range and OutEdges"},
 		Outside:  []string{"more than 4 competing inputs", "iteration orders outside the named policies"},
@@ -144,11 +148,10 @@ func registerResolver() {
 	register(&PropSpec{
 		ID: "C13", Pkg: "argmapper",
 		Quick: []Shard{
-			world("HarnessC13", 1, 1, 2, 0, 0, 0), world("HarnessC13", 3, 2, 1, 0, 1, 0), world("HarnessC13", 0, 1, 1, 11, 9, 0), world("HarnessC13", 2, 1, 1, 11, 0, 1), world("HarnessC13", 1, 2, 1, 11, 1, 0),
+			world("HarnessC13", 1, 1, 2, 0, 0, 0), world("HarnessC13", 3, 2, 1, 0, 1, 0), world("HarnessC13", 0, 1, 1, 11, 9, 0), world("HarnessC13", 2, 1, 1, 11, 3, 1), world("HarnessC13", 1, 2, 1, 11, 1, 0), world("HarnessC13", 5, 2, 1, 2111, 0, 0),
 		},
 		Thorough: []Shard{
-			world("HarnessC13", 1, 1, 2, 0, 0, 0), world("HarnessC13", 3, 2, 1, 0, 1, 0), world("HarnessC13", 0, 1, 1, 11, 9, 0), world("HarnessC13", 2, 1, 1, 11, 0, 1), world("HarnessC13", 1, 2, 1, 11, 1, 0),
-			world("HarnessC13", 3, 2, 2, 11, 1, 0), world("HarnessC13", 0, 2, 1, 1111, 1, 0),
+			world("HarnessC13", 1, 1, 2, 0, 0, 0), world("HarnessC13", 3, 2, 1, 0, 1, 0), world("HarnessC13", 0, 1, 1, 11, 9, 0), world("HarnessC13", 2, 1, 1, 11, 3, 1), world("HarnessC13", 1, 2, 1, 11, 1, 0), world("HarnessC13", 5, 2, 1, 2111, 0, 0), world("HarnessC13", 3, 2, 2, 11, 1, 0), world("HarnessC13", 0, 2, 1, 1111, 1, 0), world("HarnessC13", 6, 2, 1, 12, 1, 0, 4), world("HarnessC13", 7, 2, 1, 11, 1, 0), world("HarnessC13", 1, 2, 1, 91, 1, 0),
 		},
 		Covers:   []string{"C13.hopeless-world", "C13.error-checked"},
 		Bounds:   []string{"template worlds as C01 restricted (by assumption) to worlds with a target parameter that no supplied value and no converter output can match"},
@@ -260,8 +263,8 @@ func registerResolver() {
 	}
 	register(&PropSpec{
 		ID: "C11", Pkg: "argmapper",
-		Quick:    []Shard{c11(2, 1), c11(3, 0), sh("HarnessC11Within", "two needs within one call, struct form", 0, 1), sh("HarnessC11Within", "two needs within one call, built form", 0, 0)},
-		Thorough: []Shard{c11(3, 1), c11(4, 0), c11(3, 2), c11(5, 1), sh("HarnessC11Within", "two needs within one call, struct form", 0, 1), sh("HarnessC11Within", "two needs within one call, built form", 0, 0), sh("HarnessC11Within", "two needs within one call, *struct form", 0, 2)},
+		Quick:    []Shard{c11(2, 1), c11(3, 3), c11(2, 2), sh("HarnessC11Within", "two needs within one call, struct form", 0, 1), sh("HarnessC11Within", "two needs within one call, built form", 0, 3)},
+		Thorough: []Shard{c11(3, 1), c11(4, 3), c11(3, 2), c11(5, 1), sh("HarnessC11Within", "two needs within one call, struct form", 0, 1), sh("HarnessC11Within", "two needs within one call, built form", 0, 3), sh("HarnessC11Within", "two needs within one call, *struct form", 0, 2)},
 		Covers:   []string{"C11.history-checked", "C11.later-use-checked", "C11.cached-error-checked", "C11.within-call-checked"},
 		Bounds:   []string{"sequential histories of <=3 (quick) / 5 (thorough) operations chosen symbolically from Call on two targets, Convert and Redefine, all needing one run-once converter (directly or through a second converter), fresh symbolic arguments per operation, symbolic failure of the first execution", "repeated needs within one call"},
 		Outside:  []string{"the concurrent clause (goroutine interleavings) is not explored: see C12 for the write-set argument and DESIGN.md", "histories longer than 5"},
